@@ -265,7 +265,7 @@ Definition step (qf : qfn) (p : policy) (st : state) (o : op) : state * obs * ef
   | OCopy j =>
       match nth_error (st_objs st) j with
       | None => (st, bad, eff0)
-      | Some ob => derive st ob (hget h (o_cell ob)) (o_mask ob) (p_derive_keeps_cache p) false
+      | Some ob => derive st ob (hget h (o_cell ob)) (o_mask ob) true false      (* __copy__: __dict__ carried over; same contents *)
       end
   | OTrim j keep =>
       match nth_error (st_objs st) j with
